@@ -151,6 +151,9 @@ def main():
     if args and args[0] == "--round8":
         outroot, rename = "/tmp/wt-out9", {"A": "K", "B": "L"}
         args = args[1:]
+    if args and args[0] == "--round9":
+        outroot, rename = "/tmp/wt-out10", {"A": "N", "B": "O"}
+        args = args[1:]
     if args and args[0] == "--round7":
         outroot, rename = "/tmp/wt-out8", {"A": "I", "B": "J"}
         args = args[1:]
